@@ -543,7 +543,7 @@ pub fn evaluate(ctx: Context, expr: &Expr) -> Result<Val> {
 					)),
 					(Val::Arr(v), Val::Num(n)) => {
 						let n = n.get();
-						if n.fract() > f64::EPSILON {
+						if n.fract() != 0.0 {
 							bail!(FractionalIndex)
 						}
 						if n < 0.0 {
@@ -563,7 +563,7 @@ pub fn evaluate(ctx: Context, expr: &Expr) -> Result<Val> {
 
 					(Val::Str(s), Val::Num(n)) => Val::Str({
 						let n = n.get();
-						if n.fract() > f64::EPSILON {
+						if n.fract() != 0.0 {
 							bail!(FractionalIndex)
 						}
 						if n < 0.0 {
